@@ -32,6 +32,8 @@ const PreludeContract = `access(all) contract C {
         access(all) view fun val(): Int { return self.n }
         access(all) fun setN(_ n: Int) { self.n = n }
         access(all) fun addTag(_ t: String) { self.tags.append(t) }
+        access(all) view fun me(): auth(E) &S { return &self as auth(E) &S }
+        access(all) fun meImpure(): auth(E) &S { return &self as auth(E) &S }
     }
     access(all) attachment SA for S {
         access(all) fun baseVal(): Int { return base.val() }
@@ -147,6 +149,11 @@ const PreludeContract = `access(all) contract C {
         return <- self.vault.removeLast()
     }
     access(all) fun idR(_ r: &R): &R { return r }
+    // function values at function types that differ only by a weaker authorization
+    access(all) fun callView(_ f: view fun(): &S): Int { return f().n }
+    access(all) fun callImpure(_ f: fun(): &S): Int { return f().n }
+    access(all) fun weaken(_ f: view fun(): auth(E) &S): view fun(): &S { return f }
+    access(all) fun callWithAuth(_ f: fun(auth(E) &S): Int, _ s: auth(E) &S): Int { return f(s) }
     access(all) fun sink(_ r: @AnyResource) { destroy r }
 
     init() { self.vault <- [] }
